@@ -882,3 +882,99 @@ Proof.
 Qed.
 
 End Acceptance.
+
+(* ------------------------------------------------------------------ *)
+(* the fuel of the decoder is never what stops it                      *)
+(* ------------------------------------------------------------------ *)
+Lemma varint_aux_shorter : forall k idx acc b v r,
+  varint_aux k idx acc b = Some (v, r) -> (length r < length b)%nat.
+Proof.
+  induction k as [|k IH]; intros idx acc b v r H; [discriminate|].
+  cbn [varint_aux] in H. destruct b as [|x t]; [discriminate|].
+  destruct (x <? 128).
+  - destruct ((idx =? 9) && negb (x <? 2)); [discriminate|]. inversion H; subst. simpl. lia.
+  - apply IH in H. simpl. lia.
+Qed.
+
+Lemma varint_shorter b v r : varint b = Some (v, r) -> (length r < length b)%nat.
+Proof. apply varint_aux_shorter. Qed.
+
+Lemma take_shorter n b p r : take n b = Some (p, r) -> (length r <= length b)%nat.
+Proof.
+  unfold take. destruct (n <=? blen b); [|discriminate]. intros H. inversion H; subst.
+  rewrite skipn_length. lia.
+Qed.
+
+Lemma skip_scalar_shorter wt b r : skip_scalar wt b = Some r -> (length r <= length b)%nat.
+Proof.
+  unfold skip_scalar.
+  destruct (wt =? 0).
+  { destruct (varint b) as [[v r']|] eqn:V; [|discriminate]. intros H. inversion H; subst. apply varint_shorter in V. lia. }
+  destruct (wt =? 1).
+  { destruct (take 8 b) as [[p r']|] eqn:T; [|discriminate]. intros H. inversion H; subst. eapply take_shorter; eauto. }
+  destruct (wt =? 2).
+  { destruct (varint b) as [[m r']|] eqn:V; [|discriminate]. destruct (take m r') as [[p r'']|] eqn:T; [|discriminate].
+    intros H. inversion H; subst. apply varint_shorter in V. apply take_shorter in T. lia. }
+  destruct (wt =? 5); [|discriminate].
+  destruct (take 4 b) as [[p r']|] eqn:T; [|discriminate]. intros H. inversion H; subst. eapply take_shorter; eauto.
+Qed.
+
+Lemma skip_groups_shorter : forall f st b r, skip_groups f st b = Some r -> (length r <= length b)%nat.
+Proof.
+  induction f as [|f IH]; intros st b r H; destruct st as [|top rest]; cbn [skip_groups] in H;
+    try (inversion H; subst; lia); try discriminate.
+  destruct (varint b) as [[tag b1]|] eqn:V; [|discriminate]. apply varint_shorter in V.
+  destruct ((tag / 8 <? 1) || (max_int32 <? tag / 8)); [discriminate|].
+  destruct (tag mod 8 =? 4).
+  { destruct (tag / 8 =? top); [|discriminate]. apply IH in H. lia. }
+  destruct (tag mod 8 =? 3).
+  { destruct (group_depth_limit + 1 <? _); [discriminate|]. apply IH in H. lia. }
+  destruct (skip_scalar (tag mod 8) b1) as [b2|] eqn:S; [|discriminate].
+  apply skip_scalar_shorter in S. apply IH in H. lia.
+Qed.
+
+(* any fuel above the input length gives the same answer *)
+Lemma skip_groups_fuel : forall f1 f2 st b,
+  (length b < f1)%nat -> (length b < f2)%nat -> skip_groups f1 st b = skip_groups f2 st b.
+Proof.
+  induction f1 as [|f1 IH]; intros f2 st b H1 H2; [lia|]. destruct f2 as [|f2]; [lia|].
+  destruct st as [|top rest]; cbn [skip_groups]; [reflexivity|].
+  destruct (varint b) as [[tag b1]|] eqn:V; [|reflexivity]. apply varint_shorter in V.
+  destruct ((tag / 8 <? 1) || (max_int32 <? tag / 8)); [reflexivity|].
+  destruct (tag mod 8 =? 4).
+  { destruct (tag / 8 =? top); [|reflexivity]. apply IH; lia. }
+  destruct (tag mod 8 =? 3).
+  { destruct (group_depth_limit + 1 <? _); [reflexivity|]. apply IH; lia. }
+  destruct (skip_scalar (tag mod 8) b1) as [b2|] eqn:S; [|reflexivity].
+  apply skip_scalar_shorter in S. apply IH; lia.
+Qed.
+
+Lemma fields_aux_fuel : forall f1 f2 b,
+  (length b <= f1)%nat -> (length b <= f2)%nat -> fields_aux f1 b = fields_aux f2 b.
+Proof.
+  induction f1 as [|f1 IH]; intros f2 b H1 H2.
+  - destruct b; [|simpl in H1; lia]. destruct f2; reflexivity.
+  - destruct b as [|x t]; [destruct f2; reflexivity|]. destruct f2 as [|f2]; [simpl in H2; lia|].
+    cbn [fields_aux]. set (b := x :: t) in *.
+    destruct (varint b) as [[tag b1]|] eqn:V; [|reflexivity]. apply varint_shorter in V.
+    destruct ((tag / 8 <? 1) || (max_field_number <? tag / 8)); [reflexivity|].
+    destruct (tag mod 8 =? 0).
+    { destruct (varint b1) as [[v b2]|] eqn:V2; [|reflexivity]. apply varint_shorter in V2.
+      rewrite (IH f2 b2); [reflexivity|lia|lia]. }
+    destruct (tag mod 8 =? 2).
+    { destruct (varint b1) as [[m b2]|] eqn:V2; [|reflexivity]. apply varint_shorter in V2.
+      destruct (take m b2) as [[p b3]|] eqn:T; [|reflexivity]. apply take_shorter in T.
+      rewrite (IH f2 b3); [reflexivity|lia|lia]. }
+    destruct (tag mod 8 =? 3).
+    { destruct (skip_groups (S (length b1)) [tag / 8] b1) as [b2|] eqn:G; [|reflexivity].
+      apply skip_groups_shorter in G. rewrite (IH f2 b2); [reflexivity|lia|lia]. }
+    destruct (skip_scalar (tag mod 8) b1) as [b2|] eqn:S; [|reflexivity].
+    apply skip_scalar_shorter in S. rewrite (IH f2 b2); [reflexivity|lia|lia].
+Qed.
+
+Theorem fields_fuel_adequate f b : (length b <= f)%nat -> fields_aux f b = fields b.
+Proof. intros H. unfold fields. apply fields_aux_fuel; lia. Qed.
+
+Theorem skip_groups_fuel_adequate f st b : (length b < f)%nat ->
+  skip_groups f st b = skip_groups (S (length b)) st b.
+Proof. intros H. apply skip_groups_fuel; lia. Qed.
